@@ -38,6 +38,7 @@ type cell struct {
 	Stmt   string `json:"st"`           // the one-use statement (one line)
 	Ref    string `json:"r,omitempty"`  // accept | reject | "" (no reference: reported inconclusive)
 	NoExec string `json:"nx,omitempty"` // reason why the accepted cell is not executed
+	Route  string `json:"rt,omitempty"` // family R: how the scope of the user subroutine is determined (routes.go)
 }
 type batch struct {
 	Cells []cell `json:"cells"`
@@ -74,9 +75,13 @@ func lintSource(c cell) (src string, stmtLine int) {
 	var sb strings.Builder
 	sb.WriteString(decls)
 	line := declLines
+	if c.Route != "" {
+		return routeSource(c)
+	}
 	if strings.Contains(c.Scope, ",") {
-		sb.WriteString("// @scope: " + strings.ToLower(c.Scope) + "\nsub t {\n")
-		line += 2
+		a, n := annotation(c.ID, strings.Split(c.Scope, ","))
+		sb.WriteString(a + "sub t {\n")
+		line += n + 1
 	} else {
 		sb.WriteString("sub vcl_" + strings.ToLower(c.Scope) + " {\n#FASTLY " + c.Scope + "\n")
 		line += 2
@@ -775,8 +780,19 @@ func gen(g *fw.GenCtx) {
 		}
 		all = append(all, c)
 	}
-	if !g.Quick() {
+	all = append(all, routeCells(all, g.Quick(), g.Seed)...)
+	{
+		// the two-scope annotations: all 36 pairs (thorough), a third of them chosen by the seed (quick)
 		p := pairs()
+		if g.Quick() {
+			var q []string
+			for i, x := range p {
+				if (i+int(g.Seed))%3 == 0 {
+					q = append(q, x)
+				}
+			}
+			p = q
+		}
 		all = append(all, varCells(vars, p, "P", []string{"get", "set", "unset"})...)
 		all = append(all, fnCells(fns, p, "P", false)...)
 		all = append(all, stmtCells(p, "P")...)
@@ -1019,6 +1035,10 @@ func run(c fw.Case) fw.Outcome {
 		return oc
 	}
 	for _, cl := range b.Cells {
+		if cl.Route != "" {
+			runRouteCell(&oc, cl)
+			continue
+		}
 		runCell(&oc, cl)
 	}
 	if len(b.Cells) > 0 {
